@@ -82,6 +82,13 @@ def check(ctx):
     ctx.extra_cov['table_status'] = {str(k): v for k, v in table_status.items()}
     gen.CONFIG['regex_overrides'] = overrides
 
+    # --- a validator that is published with two different languages cannot be right for both spec entries
+    alt_jobs = []
+    for n, i in infos.items():
+        for k, alt in enumerate(i.get('alts', [])):
+            w = regexgen.equivalent(i['dfa'], alt['dfa'])
+            alt_jobs.append((n, k, alt, w))
+
     # --- Verus: the 13 loops (parametric in the reference automaton)
     ctx.verus_unit(regex_tables.make_unit(infos), finder=None)
 
@@ -108,6 +115,20 @@ def check(ctx):
 
     # --- native cross-checks on the real functions (bounded): W-method conformance sets + short strings
     b = ctx.native()
+    for n, k, alt, w in alt_jobs:
+        name = 'regex_pair_%d_alt%d/validator-matches-every-regex-it-is-published-with' % (n, k)
+        fail = None
+        for chk, rx in (('regex_%d_alt%d' % (n, k), alt['regex']), ('regex_%d' % n, infos[n]['regex'])):
+            rc, out, err, secs = run([b, 'one', 'regex', chk, w.hex()], timeout=60)
+            if '"panic"' in out:
+                fail = (chk, rx)
+                break
+        ob = ctx.add(Obligation(ctx.prop, name, 'regexspec+native', 'complete', 'failed',
+                                detail='validate_regex_%d is the check_fn of spec entries with two different languages: %r and %r (they differ on %r)' % (n, infos[n]['regex'], alt['regex'], w)))
+        if fail:
+            ob.witness = dict(input_hex=w.hex(), input_text=w.decode('latin-1'), observed='validate_regex_%d(%r) disagrees with the regex %r published with it' % (n, w, fail[1]),
+                              via='string distinguishing the two published regexes, evaluated on the real validator', replay=['one', 'regex', fail[0], w.hex()])
+        ctx._record_violation(ob, classify=False)
     wdir = ctx.scratch.path('wsets')
     os.makedirs(wdir, exist_ok=True)
     for n, i in infos.items():
